@@ -977,5 +977,17 @@ def partial_first_writes(nodes):
     return out
 
 
+def partial_first_written_and_read(nodes):
+    """names of partial_first_writes(nodes) that are also READ somewhere in the region (their
+    unrecorded incoming value can then influence ANY output, e.g. through a loop condition)"""
+    from psyclone.core import VariablesAccessInfo, Signature
+    nodes = list(nodes)
+    part = partial_first_writes(nodes)
+    if not part:
+        return []
+    vai = VariablesAccessInfo(nodes)
+    return sorted(n for n in part if any(str(sig) == n and vai[sig].is_read() for sig in vai.all_signatures))
+
+
 def line(op, *args):
     return sx([op] + list(args))
